@@ -1,11 +1,215 @@
 import Driver.Common
-open Lean Drv
+import RxModel.AggOps
+import RxModel.AggSeqEq
+import RxModel.AggC09
+open Lean Drv Agg
 
 namespace DrvAgg
 
-def handle (op : String) (_j : Json) : Except String Json := do
+def notifOfJson (j : Json) : Except String (Notif Val) := do
+  match j with
+  | .arr #[.str "N", v] => pure (.next (← valOfJson v))
+  | .arr #[.str "E", .str e] => pure (.error e)
+  | .arr #[.str "C"] => pure .completed
+  | _ => throw s!"bad notification {j.compress}"
+
+def notifToJson (n : Notif Val) : Json :=
+  match n with
+  | .next v => Json.arr #[.str "N", valToJson v]
+  | .error e => Json.arr #[.str "E", .str e]
+  | .completed => Json.arr #[.str "C"]
+
+def timedOfJson (j : Json) : Except String (Int × Notif Val) := do
+  match j with
+  | .arr #[t, n] => pure ((← t.getInt?), (← notifOfJson n))
+  | _ => throw s!"bad timed notification {j.compress}"
+
+def timedToJson (p : Int × Notif Val) : Json := Json.arr #[.num (JsonNumber.fromInt p.1), notifToJson p.2]
+
+/-! Python-level primitives on `Val` used by the operators' built-in default callbacks. -/
+
+def asInt? : Val → Option Int
+  | .bool b => some (if b then 1 else 0)
+  | .int i => some i
+  | _ => none
+
+/-- `prev + cur` (numbers of this domain: int/bool); anything else raises TypeError -/
+def addNum (a b : Val) : Except Err Val :=
+  match asInt? a, asInt? b with
+  | some x, some y => .ok (.int (x + y))
+  | _, _ => .error "TypeError"
+
+/-- `default_sub_comparer`: `x - y` -/
+def subNum (a b : Val) : Except Err Int :=
+  match asInt? a, asInt? b with
+  | some x, some y => .ok (x - y)
+  | _, _ => .error "TypeError"
+
+/-- `float(x)` for the averaged domain (exact on int/bool); None/tuple/list → TypeError, str → ValueError -/
+def toFloat (a : Val) : Except Err Int :=
+  match a with
+  | .str _ => .error "ValueError"
+  | _ => match asInt? a with
+    | some x => .ok x
+    | none => .error "TypeError"
+
+def pred1 (f : FnTab) (x : Val) : Except Err Bool := (f.call x).map Val.truthy
+def fn1 (f : FnTab) (x : Val) : Except Err Val := f.call x
+def fn2 (f : FnTab) (a b : Val) : Except Err Val := f.call (.tup [a, b])
+/-- a user comparer returning a number (`SubComparer`) -/
+def cmpInt (f : FnTab) (a b : Val) : Except Err Int :=
+  match f.call (.tup [a, b]) with
+  | .error e => .error e
+  | .ok v => match asInt? v with
+    | some i => .ok i
+    | none => .error "TypeError"
+/-- a user comparer returning a truth value (`Comparer`) -/
+def cmpBool (f : FnTab) (a b : Val) : Except Err Bool := (f.call (.tup [a, b])).map Val.truthy
+def defaultCmp (a b : Val) : Except Err Bool := .ok (Val.pyEq a b)
+
+def optFn (j : Json) (k : String) : Except String (Option FnTab) :=
+  match j.getObjVal? k with
+  | .ok .null => pure none
+  | .ok v => do pure (some (← fnOfJson v))
+  | .error _ => pure none
+
+/-- optional value wrapped in a one-element array: `"seed": [v]` (so that `None` is a legal seed) -/
+def optVal (j : Json) (k : String) : Except String (Option Val) :=
+  match j.getObjVal? k with
+  | .ok (.arr #[v]) => do pure (some (← valOfJson v))
+  | _ => pure none
+
+def setVal (xs : List Val) : Val := .tup (.str ".set" :: xs)
+def avgVal (p : Int × Nat) : Val := .tup [.str ".avg", .int p.1, .int p.2]
+
+def runOp {β} (op : Op Val β) (toVal : β → Val) (lag : Bool) (src : List (Int × Notif Val)) : Json :=
+  let outs := op.outT lag src
+  let esc := op.escapes lag (src.map (·.2))
+  Json.mkObj [("out", Json.arr ((outs.map (fun p => timedToJson (p.1, p.2.map toVal))).toArray)),
+              ("escaped", Json.arr ((esc.map Json.str).toArray))]
+
+def handleSingle (op : String) (j : Json) : Except String Json := do
+  let lag := (getBool j "lag").toOption.getD false
+  let src ← (← getArr j "src").mapM timedOfJson
+  let pred ← optFn j "pred"
+  let predF := pred.map pred1
+  let idV : Val → Val := id
   match op with
+  | "scan" =>
+    let acc ← getFn j "acc"
+    pure (runOp (scanO (fn2 acc) (← optVal j "seed") id) idV lag src)
+  | "reduce" =>
+    let acc ← getFn j "acc"
+    pure (runOp (reduceO (fn2 acc) (← optVal j "seed") id) idV lag src)
+  | "count" => pure (runOp (countO predF) (fun n => Val.int n) lag src)
+  | "sum" =>
+    match ← optFn j "key" with
+    | some k => pure (runOp (sumByO (fn1 k) addNum (.int 0)) idV lag src)
+    | none => pure (runOp (sumPlainO addNum (.int 0)) idV lag src)
+  | "average" =>
+    match ← optFn j "key" with
+    | some k => pure (runOp (averageO (fun x => (fn1 k x).bind toFloat')) avgVal lag src)
+    | none => pure (runOp (averageO toFloat) avgVal lag src)
+  | "min" =>
+    match ← optFn j "cmp" with
+    | some c => pure (runOp (minO (cmpInt c)) idV lag src)
+    | none => pure (runOp (minO subNum) idV lag src)
+  | "max" =>
+    match ← optFn j "cmp" with
+    | some c => pure (runOp (maxO (cmpInt c)) idV lag src)
+    | none => pure (runOp (maxO subNum) idV lag src)
+  | "min_by" =>
+    let key ← getFn j "key"
+    match ← optFn j "cmp" with
+    | some c => pure (runOp (minByO (fn1 key) (cmpInt c)) Val.lst lag src)
+    | none => pure (runOp (minByO (fn1 key) subNum) Val.lst lag src)
+  | "max_by" =>
+    let key ← getFn j "key"
+    match ← optFn j "cmp" with
+    | some c => pure (runOp (maxByO (fn1 key) (cmpInt c)) Val.lst lag src)
+    | none => pure (runOp (maxByO (fn1 key) subNum) Val.lst lag src)
+  | "to_list" => pure (runOp toListO Val.lst lag src)
+  | "to_set" => pure (runOp (toSetO Val.pyEq) setVal lag src)
+  | "to_dict" =>
+    let key ← getFn j "key"
+    match ← optFn j "elem" with
+    | some e => pure (runOp (toDictO Val.pyEq (fn1 key) (fn1 e)) Val.dct lag src)
+    | none => pure (runOp (toDictO Val.pyEq (fn1 key) (fun x => .ok x)) Val.dct lag src)
+  | "first" => pure (runOp (firstO predF) idV lag src)
+  | "first_or_default" => pure (runOp (firstOrDefaultPO predF (← getVal j "default")) idV lag src)
+  | "last" => pure (runOp (lastO predF) idV lag src)
+  | "last_or_default" => pure (runOp (lastOrDefaultPO predF (← getVal j "default")) idV lag src)
+  | "single" => pure (runOp (singleO predF) idV lag src)
+  | "single_or_default" => pure (runOp (singleOrDefaultPO predF (← getVal j "default")) idV lag src)
+  | "some" => pure (runOp (someO predF) Val.bool lag src)
+  | "all" =>
+    match predF with
+    | some p => pure (runOp (allO p) Val.bool lag src)
+    | none => throw "all needs pred"
+  | "contains" =>
+    let v ← getVal j "value"
+    match ← optFn j "cmp" with
+    | some c => pure (runOp (containsO v (cmpBool c)) Val.bool lag src)
+    | none => pure (runOp (containsO v defaultCmp) Val.bool lag src)
+  | "is_empty" => pure (runOp isEmptyO Val.bool lag src)
+  -- element-wise operators with callbacks re-stated for C09
+  | "map" => pure (runOp (mapO (fn1 (← getFn j "fn"))) idV lag src)
+  | "filter" => pure (runOp (filterO (pred1 (← getFn j "fn"))) idV lag src)
+  | "take_while" =>
+    pure (runOp (takeWhileO (pred1 (← getFn j "fn")) ((getBool j "inclusive").toOption.getD false)) idV lag src)
+  | "distinct" =>
+    let key ← optFn j "key"
+    let keyF : Val → Except Err Val := match key with | some k => fn1 k | none => fun x => .ok x
+    match ← optFn j "cmp" with
+    | some c => pure (runOp (distinctO keyF (cmpBool c)) idV lag src)
+    | none => pure (runOp (distinctO keyF defaultCmp) idV lag src)
+  | "find" =>
+    let f ← getFn j "fn"
+    let yi := (getBool j "yield_index").toOption.getD false
+    pure (runOp (findO (fun x i => (f.call (.tup [x, .int i])).map Val.truthy) yi) (fun r => match r with | .inl (some v) => v | .inl none => Val.none | .inr i => Val.int i) lag src)
   | _ => throw s!"unknown op {op}"
+where
+  -- with a key mapper `float()` is not applied: a non-number fails in `prev.sum + cur` (TypeError), caught by scan's map
+  toFloat' (v : Val) : Except Err Int := match asInt? v with | some i => .ok i | none => .error "TypeError"
+
+def sideTimed (sd : Side) (p : Int × Notif Val) : Int × Side × Notif Val := (p.1, sd, p.2)
+
+/-- merge two timed streams by time; on a tie the left source (created first) is delivered first -/
+def mergeT : Nat → List (Int × Notif Val) → List (Int × Notif Val) → List (Int × Side × Notif Val)
+  | 0, _, _ => []
+  | _ + 1, [], rs => rs.map (sideTimed .R)
+  | _ + 1, ls, [] => ls.map (sideTimed .L)
+  | fuel + 1, l :: ls, r :: rs =>
+    if l.1 ≤ r.1 then sideTimed .L l :: mergeT fuel ls (r :: rs)
+    else sideTimed .R r :: mergeT fuel (l :: ls) rs
+
+def handleSeq (j : Json) : Except String Json := do
+  let lag := (getBool j "lag").toOption.getD false
+  let left ← (← getArr j "left").mapM timedOfJson
+  let cmp : Val → Val → Except Err Bool ← (do
+    match ← optFn j "cmp" with
+    | some c => pure (cmpBool c)
+    | none => pure defaultCmp)
+  let tr ← (do
+    match j.getObjVal? "iter" with
+    | .ok (.arr xs) =>
+      -- from_iterable(second) subscribed at `t0`: all elements and the completion in one scheduler action
+      let t0 ← getInt j "t0"
+      let vs ← xs.toList.mapM valOfJson
+      let rs : List (Int × Side × Notif Val) := vs.map (fun v => (t0, Side.R, Notif.next v)) ++ [(t0, Side.R, Notif.completed)]
+      pure (rs ++ left.map (sideTimed .L))
+    | _ =>
+      let right ← (← getArr j "right").mapM timedOfJson
+      pure (mergeT (left.length + right.length + 1) left right))
+  let outs := seqOutT cmp lag tr
+  let esc := seqEscapes cmp lag (tr.map (·.2))
+  pure (Json.mkObj [("out", Json.arr ((outs.map (fun p => timedToJson (p.1, p.2.map Val.bool))).toArray)),
+                    ("escaped", Json.arr ((esc.map Json.str).toArray))])
+
+def handle (op : String) (j : Json) : Except String Json := do
+  match op with
+  | "sequence_equal" => handleSeq j
+  | _ => handleSingle op j
 
 end DrvAgg
 
